@@ -777,5 +777,43 @@ pub fn cases(seed: u64, tier: Tier) -> Cases {
             }
         }
     }
+    // doubles in key position written the way any JSON number may be written (no fraction, an exponent), and an
+    // optional at the root of a document holding what only this format spells its own way
+    {
+        use conjure_object::DoubleKey;
+        use std::collections::{BTreeMap, BTreeSet};
+        let docs: [(&str, &str); 4] = [("[1,2.5,-3]", "[-3.0,1.0,2.5]"), ("[1e2]", "[100.0]"), ("[0,\"NaN\",\"-Infinity\"]", "[\"-Infinity\",0.0,\"NaN\"]"), ("[]", "[]")];
+        for (doc, want) in docs {
+            for server in [false, true] {
+                let d = doc.to_string();
+                let r = guarded(move || {
+                    let v: BTreeSet<DoubleKey> = if server { conjure_serde::json::server_from_str(&d) } else { conjure_serde::json::client_from_str(&d) }.map_err(|e| e.to_string())?;
+                    conjure_serde::json::to_string(&v).map_err(|e| e.to_string())
+                });
+                cs.push("double-keys", "noop".into(), "noop".into(), true, format!("set<double> ({}) from {}", if server { "server" } else { "client" }, doc));
+                if r.as_ref().ok().and_then(|x| x.as_ref().ok()).map(|s| s.as_str()) != Some(want) {
+                    cs.fail_last("valid-rejected:set-of-double", format!("the valid set<double> document {} gives {:?} (expected {})", doc, r, want));
+                }
+            }
+        }
+        let d = "{\"1\":1,\"2.5\":2,\"-Infinity\":3,\"1e2\":4}".to_string();
+        let r = guarded(move || conjure_serde::json::server_from_str::<BTreeMap<DoubleKey, i32>>(&d).map(|m| m.len()).map_err(|e| e.to_string()));
+        cs.push("double-keys", "noop".into(), "noop".into(), true, "map<double, integer> from keys 1, 2.5, -Infinity, 1e2".to_string());
+        if !matches!(r, Ok(Ok(4))) {
+            cs.fail_last("valid-rejected:map-of-double", format!("the valid map<double, integer> document gives {:?}", r));
+        }
+        // root optionals
+        let r = guarded(|| {
+            let a = conjure_serde::json::to_string(&Some(f64::NAN)).map_err(|e| e.to_string())?;
+            let b = conjure_serde::json::to_string(&Some(conjure_object::Bytes::from_static(b"foo"))).map_err(|e| e.to_string())?;
+            let c = conjure_serde::json::to_string(&Some(vec![f64::INFINITY])).map_err(|e| e.to_string())?;
+            let d = conjure_serde::json::to_string(&Option::<f64>::None).map_err(|e| e.to_string())?;
+            Ok::<_, String>(format!("{} {} {} {}", a, b, c, d))
+        });
+        cs.push("root-optional", "noop".into(), "noop".into(), true, "Some(NaN), Some(binary foo), Some([Infinity]) and None as whole documents".to_string());
+        if r.as_ref().ok().and_then(|x| x.as_ref().ok()).map(|s| s.as_str()) != Some("\"NaN\" \"Zm9v\" [\"Infinity\"] null") {
+            cs.fail_last("root-optional:encoding", format!("a present optional at the root of a document is written {:?}; the specified encodings are \"NaN\" \"Zm9v\" [\"Infinity\"] null", r));
+        }
+    }
     cs
 }
